@@ -172,9 +172,11 @@ class Excel:
     def _get_suspicious_constructions(cls, value):
         value = str(value)
         # an identifier (it does not start with a digit: 555(1234) calls nothing) immediately followed by an argument list
-        suspicious_constructions = re.findall(r'[a-zA-Z_][a-zA-Z_\d]*\(.*?\)', value)
+        # the argument list may run over a line break (Alt+Enter inside a cell)
+        suspicious_constructions = re.findall(r'[a-zA-Z_][a-zA-Z_\d]*\(.*?\)', value, re.DOTALL)
         if suspicious_constructions:
-            return [i for i in suspicious_constructions if not re.findall(r'[A-Z]+\(.*?\)', i)]
+            # an upper-case function name may contain digits after its first letter (LOG10, ATAN2, DAYS360)
+            return [i for i in suspicious_constructions if not re.findall(r'[A-Z][A-Z\d]*\(.*?\)', i, re.DOTALL)]
 
         return []
 
